@@ -136,13 +136,13 @@ def cases(rng, tier):
         dom = [[rng.uniform(-1.5, 1.5) for _ in range(s)] for s in shape]
         out.append(dict(common(), kind="generic", fn=rng.choice(list(GFN)), shape=shape, domain=dom, ranks=rng.randint(1, 4),
                         max_iter=rng.randint(1, 3), adaptive=rng.random() < 0.3, record=rng.random() < 0.3))
-    ops = [("unary", u) for u in UNARY] + [("binary", b) for b in BINARY] + [("operator", o) for o in OPERATORS] * 2
+    ops = [("unary", u) for u in UNARY] + [("binary", b) for b in BINARY] + [("operator", o) for o in OPERATORS] * 5
     rng.shuffle(ops)
-    for kind, name in (ops * 2 * mult)[: 48 * mult]:     # operators through cross
+    for kind, name in (ops * 2 * mult)[: 60 * mult]:     # operators through cross
         N = rng.choice([2, 3, 3, 4])
         shape = [rng.randint(3, 6 if N < 4 else 4) for _ in range(N)]
         out.append({"seed": rng.randrange(1 << 30), "kind": "ops", "opkind": kind, "name": name, "shape": shape,
-                    "scalar": rng.choice([2, 3, 0.5, 2.5, -1.5, 1]), "fmt": rng.choice(["tt", "cp", "tucker"])})
+                    "scalar": rng.choice([2, 3, 0.5, 2.5, -1.5, 1, -1, -2, -0.5]), "fmt": rng.choice(["tt", "cp", "tucker"])})
     for _ in range(16 * mult):                       # min / max
         N = rng.choice([2, 3, 3, 4])
         shape = gen_shape(rng, N, cap=1500)
@@ -473,7 +473,7 @@ def run_ops(ctx, case):
             impl = lambda: a / c; want = A / c
             label = "t/scalar"
         else:
-            p = c if c > 0 else 2
+            p = c                      # negative and fractional exponents too (operands are positive)
             impl = lambda: a ** p; want = A ** p
             label = "t**p"
     want = num(want)
